@@ -33,6 +33,7 @@ class RandQ:
         if t["mods"][0]: ops += ["is_null", "is_not_null"]
         ops += ["=", "!="]
         if not islist and t["base"] in ("Int", "String", "Float"): ops += ["<", "<=", ">", ">="]
+        if islist and t["base"] in ("Int", "String", "Float"): ops += ["<", ">="]      # list-typed operands of ordering filters (C09)
         ops += ["one_of", "not_one_of"]            # on a list-typed property the argument is a list of lists
         if islist: ops += ["contains", "not_contains"]
         if base == "String": ops += STRING_OPS
